@@ -42,8 +42,8 @@ def r1_inplace_twins(run, tree):
             run.ob("%s.%s~%s" % (ARRAY, ip, op), (sa_["ufunc"], sa_["strict"]) == (sb_["ufunc"], sb_["strict"]), a.where(),
                    "%s uses (%s, strict=%s); %s uses (%s, strict=%s)" % (ip, sa_["ufunc"], sa_["strict"], op, sb_["ufunc"],
                                                                          sb_["strict"]), "x %s= y differs from x = x %s y" % (op, op))
-    from .vector_rules import check_vector_forwarding
-    check_vector_forwarding(run, tree, ["__iadd__", "__isub__", "__imul__", "__itruediv__"])
+    from . import core_folds as cf
+    cf.check_vector_lifting(run, tree, ["__iadd__", "__isub__", "__imul__", "__itruediv__"], want_kinds=False)
 
 
 def r2_out(run, tree):
@@ -257,11 +257,9 @@ def r6_views(run, tree):
         run.ob(construct + "::unit-name-kept", good_meta, fi.where(r), detail[-1], "a[1:3] loses unit or name", nontrivial=False)
     run.ob(construct + "::view", ok, fi.where(), "; ".join(detail),
            "s = a[1:3]; a *= 2 is not seen through s (slice copied), or s *= 2 does not reach a")
-    vi = tree.cls(VECTOR)
-    fi = tree.method(vi, "__getitem__")
-    from .vector_rules import check_component_map
-    check_component_map(run, tree, fi, VECTOR + ".__getitem__", lambda elt, var, pn: isinstance(elt, ast.Subscript) and
-                        is_name(elt.value, var) and is_name(elt.slice, pn[1]), "v[idx] indexes every component with idx")
+    from . import core_folds as cf
+    cf.check_vector_unary_and_maps(run, tree)
+    cf.check_group_copy(run, tree)
 
 
 RULES = [r1_inplace_twins, r2_out, r3_rhs_not_written, r4_deep_copies, r5_shallow_container_copies, r6_views]
